@@ -34,7 +34,8 @@ Fixpoint assoc {A} (k : string) (l : list (string * A)) : option A :=
 Inductive doc := DPrim (p : prim) | DDict (kvs : list (string * doc)).
 
 (* a dataclass definition (leaf = command-line field with its annotation and definition default; None = no default) and an instance *)
-Inductive schema := SLeaf (t : ty) (defn : option value) | SNode (fs : list (string * schema)).
+Inductive schema := SLeaf (t : ty) (defn : option value) | SNode (fs : list (string * schema))
+                  | SOpt (s : schema).     (* a member `m: Optional[Class] = None`; s is the SNode of Class; the instance holds ILeaf VNone or an INode *)
 Inductive inst := ILeaf (v : value) | INode (fs : list (string * inst))
                 | IOpaque (what : string).    (* an observation the harness could not express; never produced by the model *)
 
@@ -82,6 +83,16 @@ Section LoadFields.
         end
     end.
 End LoadFields.
+
+(* the first member (definition order) that fails *)
+Section FirstErr.
+  Variable chk : schema -> option err.
+  Fixpoint first_err_fields (l : list (string * schema)) : option err :=
+    match l with
+    | [] => None
+    | (_, s') :: r => match chk s' with Some e => Some e | None => first_err_fields r end
+    end.
+End FirstErr.
 
 (* two member lists agree name by name and satisfy R member by member *)
 Section All2b.
@@ -179,6 +190,15 @@ Section WithFacts.
     | _ => finish_default t d
     end.
 
+  (* the fields of an Optional member that is None are still processed (none of them is required): each gets its definition
+     default, or None; postprocess of a Tuple field calls tuple(None) *)
+  Fixpoint absent_err (s : schema) : option err :=
+    match s with
+    | SLeaf t defn => match finish_default t (field_default defn VNone) with Ok _ => None | Err e => Some e end
+    | SNode fs => first_err_fields absent_err fs
+    | SOpt s' => absent_err s'
+    end.
+
   (* ---------- a tree of dataclasses: DataclassWrapper.set_default distributes the document by field name ---------- *)
   Fixpoint load_cfg (s : schema) (d : option doc) : res inst :=
     match s with
@@ -195,6 +215,14 @@ Section WithFacts.
         | Some kvs =>
             if negb (forallb (fun kv => str_in (fst kv) (map fst fs)) kvs) then Err (Raise "RuntimeError")   (* "... are not fields of ..." *)
             else bind (load_fields load_cfg kvs fs) (fun xs => Ok (INode xs))
+        end
+    | SOpt s' =>
+        (* _create_dataclass_instance: an Optional member whose wrapper has no default (set_default(None), or no entry) and
+           whose fields all sit at their defaults - always so on an empty command line - is None; a section in the file is the
+           wrapper's default (set_default(dict)), and the instance is built *)
+        match d with
+        | None | Some (DPrim PNull) => match absent_err s' with Some e => Err e | None => Ok (ILeaf VNone) end
+        | _ => load_cfg s' d
         end
     end.
 
